@@ -16,7 +16,7 @@ from ..attach import attach, detach_all, calls, replay_call
 from ..kernel import Monitor, hsig
 
 PID = "C08"
-RULE = ("seeded regions (coordinates 1e-3..1e7 px, spans 0.1 px..1e6 px, start coordinates at k*res+{0,+-1e-9,+-tol/2,+-2tol,res/2}) x resolutions (square, non-square, either sign "
+RULE = ("seeded regions (coordinates 1e-3..1e9 px, spans 0.1 px..1e6 px, start coordinates at k*res+{0,+-1e-9,+-tol/2,+-2tol,res/2}) x resolutions (square, non-square, either sign "
         "per axis) x anchors (edge, centre, floating, fraction, per-axis XY) x tight x tol in {1e-3,0.01,0.05}; shape-driven requests with shapes 1..300; polygons in the same and "
         "another CRS; zoom_to(resolution=) on north-up and rotated boxes; distinct = distinct (entry point, region, request)")
 ASSUMPTIONS = ["float arithmetic with eps = 1e-9*max(1,|coord|/pixel)", "regions within 10% of the tolerance boundary are generated on either side, never on it",
@@ -59,7 +59,8 @@ def judge_resolution(point, region, res_xy, anchor_xy, tol, gb, wit, cls, sig, s
     ys = sorted((A.f, A.f + ny * ry))
     for ax, (lo, hi), (qlo, qhi), r, an in ((0, xs, (region[0], region[2]), abs(rx), None if anchor_xy is None else anchor_xy[0]),
                                               (1, ys, (region[1], region[3]), abs(ry), None if anchor_xy is None else anchor_xy[1])):
-        eps = 1e-9 * max(1.0, abs(qlo) / r, abs(qhi) / r)
+        # float round-off only: a few ulps of the pixel index (1e-9 relative would hide a half-pixel error at 1 cm pixels in UTM, index ~6e8)
+        eps = 1e-9 + 1e-14 * max(abs(qlo) / r, abs(qhi) / r)
         cover = lo <= qlo + (tol + eps) * r and hi >= qhi - (tol + eps) * r
         excess = (qlo - lo) < (1 + tol + eps) * r and (hi - qhi) < (1 + tol + eps) * r
         if an is None:
@@ -67,7 +68,7 @@ def judge_resolution(point, region, res_xy, anchor_xy, tol, gb, wit, cls, sig, s
             snapped = min(abs(lo - qlo), abs(hi - qhi)) <= eps * r
         else:
             k = lo / r - an
-            snapped = abs(k - round(k)) <= 1e-6 + 1e-9 * abs(k)
+            snapped = abs(k - round(k)) <= 1e-6 + 1e-14 * abs(k)
         if not (cover and excess and snapped):
             why = "coverage" if not cover else "excess" if not excess else "alignment"
             return _mon.fail(point, wit({"why": why, "axis": "xy"[ax], "grid": [lo, hi], "region": [qlo, qhi], "pixel": r, "shape": [ny, nx]}), key=f"c08-{why}", cls=cls)
@@ -236,7 +237,7 @@ def rand_request(rng: random.Random):
     rx = a * rng.choice([1, -1])
     ry = rng.choice([a, a, a * 2, a / 3]) * rng.choice([1, -1, -1])
     tol = rng.choice([0.01, 1e-3, 0.05])
-    mag = rng.choice([1e-3, 1, 1e3, 1e6, 1e7]) * a
+    mag = rng.choice([1e-3, 1, 1e3, 1e6, 1e7, 1e8, 1e9]) * a
     x0, y0 = rng.uniform(-mag, mag), rng.uniform(-mag, mag)
     anchor = rng.choice(["edge", "center", "floating", "default", 0.25, xy_(0.1, 0.7), 0, 0.5, rng.random() * 0.99])
     axy = _anchor_xy(anchor, False) or (0, 0)
